@@ -24,6 +24,9 @@
 
 // romea
 #include "romea_core_common/diagnostic/DiagnosticReport.hpp"
+#ifdef ROMEA_CORE_COMMON_VERIF
+#include "romea_core_common/verif/VerifHooks.hpp"
+#endif
 
 namespace romea
 {
@@ -115,6 +118,9 @@ void Checkup<T>::setDiagnostic_(
 {
   Diagnostic & diagnostic = report_.diagnostics.front();
   diagnostic.message = report_.info.begin()->first + messageEnd;
+#ifdef ROMEA_CORE_COMMON_VERIF
+  romea_verif_yield("Checkup::setDiagnostic_");
+#endif
   diagnostic.status = status;
 }
 
